@@ -21,6 +21,9 @@ pub enum Mode {
     File,
     /// function definitions live in an included file
     FileWithInclude,
+    /// the script is handed over as text (its own lines have no file) and includes the file with the function
+    /// definitions: errors then alternate between "a file" and "no file"
+    TextWithInclude,
 }
 
 #[derive(Serialize, Deserialize, Clone, Debug, PartialEq)]
@@ -340,6 +343,7 @@ fn gen_case(rng: &mut Rng) -> Case {
     let mode = match rng.below(4) {
         0 | 1 => Mode::Text,
         2 => Mode::File,
+        _ if rng.chance(1, 3) => Mode::TextWithInclude,
         _ => Mode::FileWithInclude,
     };
     if rng.chance(1, 4) {
@@ -374,7 +378,7 @@ fn gen_case(rng: &mut Rng) -> Case {
             mono(&mut f.body);
         }
     }
-    if mode == Mode::FileWithInclude && !p.fns.is_empty() && rng.chance(1, 3) {
+    if matches!(mode, Mode::FileWithInclude | Mode::TextWithInclude) && !p.fns.is_empty() && rng.chance(1, 3) {
         // the same message at the same line NUMBER in two files, one error right after the other, then the queries:
         // line 2 of the included file is the first body line of the first function, line 2 of the main file is its
         // first statement (no arrays before it)
@@ -405,7 +409,7 @@ fn run_case(case: &Case, env: &WorkerEnv) -> Verdict {
         pending_false: None,
         exit_mode: false,
         fatal: None,
-        text_mode: case.mode == Mode::Text,
+        text_mode: case.mode == Mode::Text || (case.mode == Mode::TextWithInclude && p.fns.is_empty()),
         layout: None,
         nested_plan: case.nested.clone(),
         script_d0_count: 0,
@@ -423,6 +427,30 @@ fn run_case(case: &Case, env: &WorkerEnv) -> Verdict {
     let renv = Env::new(Some(Box::new(SimWriter::new("out", vec![]))), Some(Box::new(SimWriter::new("err", vec![]))), None);
     let result = match case.mode {
         Mode::Text => runner::run_script(&text, context, Some(renv)),
+        Mode::TextWithInclude if p.fns.is_empty() => runner::run_script(&text, context, Some(renv)),
+        Mode::TextWithInclude => {
+            let base = if env.chrooted { std::path::PathBuf::from("/") } else { env.jail_root.clone() };
+            let dir = base.join("run");
+            let _ = std::fs::remove_dir_all(&dir);
+            let _ = std::fs::create_dir_all(dir.join("lib"));
+            let mut q = p.clone();
+            q.main = vec![];
+            q.arrays = vec![];
+            q.forever = false;
+            let fns_text = gen::render(&q);
+            let mut q2 = p.clone();
+            q2.fns = vec![];
+            let main_text = gen::render(&q2);
+            let spliced = fns_text.lines().count();
+            let inc = dir.join("lib").join("fns.ds");
+            let _ = std::fs::write(&inc, fns_text);
+            // (the main script's own lines carry no file: the layout's main path is the empty text)
+            LAYOUT.with(|l| *l.borrow_mut() = Some((String::new(), spliced, "lib/fns.ds".to_string())));
+            sim::with_core(|c| c.probe("text-run-with-an-included-file"));
+            let r = runner::run_script(&format!("!include_files {}\n{}", inc.to_string_lossy(), main_text), context, Some(renv));
+            let _ = std::fs::remove_dir_all(&dir);
+            r
+        }
         Mode::File | Mode::FileWithInclude => {
             let base = if env.chrooted { std::path::PathBuf::from("/") } else { env.jail_root.clone() };
             let dir = base.join("run");
